@@ -100,6 +100,12 @@ impl Method for Vidya {
 		self.up_sum += change * (change > 0.) as u8 as ValueType;
 		self.dn_sum -= change * (change < 0.) as u8 as ValueType;
 
+		// both sums are sums of non-negative values, but after incremental updates float rounding
+		// may leave a tiny negative residue instead of zero, which would push CMO out of [0; 1]
+		// (up to infinity or NaN when the sums cancel each other)
+		self.up_sum = self.up_sum.max(0.);
+		self.dn_sum = self.dn_sum.max(0.);
+
 		self.last_output = if self.up_sum != 0. || self.dn_sum != 0. {
 			let cmo = ((self.up_sum - self.dn_sum) / (self.up_sum + self.dn_sum)).abs();
 			let f_cmo = self.f * cmo;
